@@ -189,7 +189,7 @@ def ty2spark(t) -> str:
         return t
     if t[0] == "array":
         return f"array<{ty2spark(t[1])}>"
-    return "struct<" + ",".join(f"{k}:{ty2spark(x)}" for k, x in t[1]) + ">"
+    return "struct<" + ",".join(f"{k if k.isidentifier() else '`' + k + '`'}:{ty2spark(x)}" for k, x in t[1]) + ">"
 
 
 def ty2T(t, T):
@@ -278,6 +278,11 @@ COLS_V = [("B", "boolean"), ("i", "bigint"), ("fLt", "double"), ("Str", "string"
           ("rL", ("struct", [("a", ("array", "double")), ("c", ("struct", [("e", "date"), ("g", "boolean")]))])),
           ("ll", ("array", ("array", "string")))]
 COLS_S = [("Id", "bigint"), ("userName", "string")]
+# struct field names that are not identifiers (blank, leading digit, hyphen) and, separately, mixed case -- top level and
+# inside arrays.  (Only with a declared dict / DDL schema: the inferred and StructType routes cannot write such names.)
+Q_STRUCT = ("struct", [("my id", "bigint"), ("1st", "string"), ("a-b", "double"), ("ok", "boolean")])
+M_STRUCT = ("struct", [("Mixed Case", "bigint"), ("myId", "string")])
+COLS_Q = [("q", Q_STRUCT), ("Lq", ("array", Q_STRUCT)), ("m", M_STRUCT), ("lm", ("array", M_STRUCT))]
 
 
 def spark_names_ok(ddl_cols):
@@ -372,8 +377,33 @@ def kind_of_value(v) -> str:
     return type(v).__name__
 
 
-def cell_signature(v, first, form, sel, col_has_nan=False) -> str:
+def pysrc(v) -> str:
+    """evaluable Python source of a value (Row field names need not be identifiers)"""
+    if hasattr(v, "__fields__"):
+        return "Row(**{" + ", ".join(f"{k!r}: {pysrc(x)}" for k, x in zip(v.__fields__, v)) + "})"
+    if isinstance(v, list):
+        return "[" + ", ".join(pysrc(x) for x in v) + "]"
+    if isinstance(v, float) and (math.isnan(v) or math.isinf(v)):
+        return "nan" if math.isnan(v) else ("inf" if v > 0 else "-inf")
+    return repr(v)
+
+
+def lower_fields(v):
+    from sqlframe.base.types import Row
+    if hasattr(v, "__fields__"):
+        r = Row(*[lower_fields(x) for x in v])
+        r.__fields__ = [k.lower() for k in v.__fields__]
+        return r
+    if isinstance(v, list):
+        return [lower_fields(x) for x in v]
+    return v
+
+
+def cell_signature(v, first, form, sel, col_has_nan=False, got=None) -> str:
     """shape predicate of a cell-level deviation"""
+    if got is not None and contains(v, lambda x: hasattr(x, "__fields__") and any(k != k.lower() for k in x.__fields__)) \
+            and same_value(got[0], lower_fields(py_expected(v))):
+        return "C09/struct-field-name-case-lowered"
     is_inf = lambda x: isinstance(x, float) and math.isinf(x)  # noqa
     if contains(v, lambda x: isinstance(x, str) and "\x00" in x):
         return "C09/string-contains-NUL"
@@ -700,7 +730,23 @@ def run(ctx: core.Ctx):
                         elif item not in schema_items:
                             schema_items.append(item)
                             schema_meta.append({"declared": ty2spark(t), "reported": f_.dataType.simpleString(), "kind": kind, "form": form})
-    ctx.log(f"(b) profile V: {len(cell_items)} distinct columns")
+    for kind in KINDS:
+        for form in ("dict", "ddl"):
+            rows = []
+            while len(rows) < 6:
+                row = tuple(gen_value(t, rnd, vstrings, depth=(0 if not rows else 1)) for _, t in COLS_Q)
+                if not rows and not all(first_ok(v, t) for v, (_, t) in zip(row, COLS_Q)):
+                    continue
+                rows.append(row)
+            got, exc, sql, sch, df = run_df(kind, form, COLS_Q, rows)
+            hist_kind[kind] += 1
+            hist_form[form] += 1
+            if got is None:
+                ctx.deviation(f"C09/raises:{exc.split(':')[0]}:{kind}:{form}:quoted-field-names", f"createDataFrame/collect raised {exc}",
+                              {"kind": kind, "form": form, "columns": [c for c, _ in COLS_Q], "rows": repr(rows)[:3000], "sql": sql})
+                continue
+            record_cells(kind, form, COLS_Q, rows, got, {"profile": "Q", "exc": None})
+    ctx.log(f"(b) profile V+Q: {len(cell_items)} distinct columns")
 
     # ---- lit() in select(): every string, and the typed leaves / nested values, without a CAST
     base_df = session.createDataFrame([(1,)], ["k"])
@@ -712,6 +758,9 @@ def run(ctx: core.Ctx):
     for _ in range(3 if ctx.tier == "quick" else 12):
         for _, t in COLS_V:
             typed.append(gen_value(t, r2, vstrings, depth=0))
+    for _ in range(2):
+        typed += [gen_value(Q_STRUCT, r2, vstrings, depth=0), gen_value(("array", Q_STRUCT), r2, vstrings, depth=0),
+                  gen_value(M_STRUCT, r2, vstrings, depth=0)]
     typed += [float("inf"), float("-inf"), [0.1], None, True, 2 ** 63 - 1,
               datetime.datetime(2020, 1, 2, 3, 4, 5, 678, tzinfo=datetime.timezone(datetime.timedelta(hours=2)))]
     lit_values += [typed[i:i + 10] for i in range(0, len(typed), 10)]
@@ -743,7 +792,8 @@ def run(ctx: core.Ctx):
     # column, a column selected twice, both key columns of a join): every value must come back, at its position
     n_dup = 0
     dup_df = session.createDataFrame([(7, "q'")], ["a", "b"])
-    ok_vals = [v for v in typed if not contains(v, lambda x: isinstance(x, float) and math.isinf(x))] \
+    ok_vals = [v for v in typed if not contains(v, lambda x: isinstance(x, float) and math.isinf(x))
+               and not contains(v, lambda x: hasattr(x, "__fields__") and any(k != k.lower() for k in x.__fields__))] \
         + [s_ for s_ in clean[::9]]
 
     def dup_check(shape, build, names, want):
@@ -800,13 +850,15 @@ def run(ctx: core.Ctx):
             if im and isp and ms and len(ctx.samples) >= 4:
                 continue
             desc = {"kind": m["kind"], "form": m["form"], "column": m["col"], "type": m["type"] if isinstance(m["type"], str) else ty2spark(m["type"]),
-                    "first_row_value": repr(first)[:300], "value": repr(v)[:600], "row": ri, "rows_before": repr(m["vals"][:ri])[:300] if m["vals"][:1] == [None] else None,
+                    "first_row_value": repr(first)[:300], "value": repr(v)[:600], "row": ri,
+                    "first_src": pysrc(first)[:2000], "value_src": pysrc(v)[:4000],
+                    "decl_type": (ty2spark(m["decl"]) if m["decl"] is not None else None), "rows_before": repr(m["vals"][:ri])[:300] if m["vals"][:1] == [None] else None,
                     "column_values": repr(m["vals"])[:1500] if col_has_nan else None,
                     "collect_returned": (repr(got[0])[:600] + " : " + type(got[0]).__name__) if got is not None else f"raised {m.get('exc')}",
                     "expected": repr(py_expected(v))[:600], "select_lit": m["sel"],
                     "verdict(impl=model,impl=spec,model=spec,in_domain)": x}
             if not isp:
-                ctx.deviation(cell_signature(v, first, m["form"], m["sel"], col_has_nan),
+                ctx.deviation(cell_signature(v, first, m["form"], m["sel"], col_has_nan, got),
                               "collect() does not return an equal value of the corresponding Python type", desc)
             if not im:
                 model_fail.append(dict(desc, coq_case=it[:3000]))
@@ -980,7 +1032,7 @@ ORACLE_SIG = {
     "nested-inf": "C09/infinity-outside-lit-is-bare-word", "struct-inf": "C09/infinity-outside-lit-is-bare-word",
     "struct-key-value": "C09/struct-with-key-and-value-fields",
     "lit-inf": "C09/lit-infinity-returns-str", "lit-floatlist": "C09/uncast-nested-float-returns-Decimal",
-    "nul-string": "C09/string-contains-NUL",
+    "nul-string": "C09/string-contains-NUL", "nested-row-case": "C09/struct-field-name-case-lowered",
     "nan-narrows-column": "C09/nan-literal-is-float32-narrows-column", "nan-narrows-list": "C09/nan-literal-is-float32-narrows-column",
     "nan-narrows-declared": "C09/nan-literal-is-float32-narrows-column", "operand-inf": "C09/infinity-outside-lit-is-bare-word",
     "name-dashdash-list": "C09/column-name-comment-marker", "name-dashdash-dict-rows": "C09/column-name-comment-marker",
@@ -988,7 +1040,6 @@ ORACLE_SIG = {
 }
 # not judged: outside the property's list of values (tuples as structs), names (C10/C16), or PySpark itself refuses
 ORACLE_SKIP = {"nested-tuple": "a plain tuple nested in a row is not in the property's list (PySpark: struct)",
-               "nested-row-case": "case of nested field names belongs to the column-name properties",
                "all-none": "PySpark refuses (CANNOT_DETERMINE_TYPE); nothing declared",
                "ddl-single-type": "PySpark refuses"}
 TYPE_SYN = {"long": "bigint", "integer": "int", "short": "smallint", "byte": "tinyint"}
@@ -1078,13 +1129,13 @@ def replay(ctx: core.Ctx, rp: dict) -> int:
         print("value:", r["value"], "| first-row value:", r.get("first_row_value"), "| container/form:", r.get("kind"), r.get("form"))
         print("expected:", r.get("expected"))
         try:
-            v = eval(r["value"], ns)
+            v = eval(r.get("value_src") or r["value"], ns)
             if r.get("select_lit"):
                 df = session.createDataFrame([(1,)], ["k"]).select(F.lit(v).alias("c"))
             else:
-                first = eval(r["first_row_value"], ns)
+                first = eval(r.get("first_src") or r["first_row_value"], ns)
                 rows = [(first,), (v,)] if repr(first) != repr(v) else [(v,)]
-                df = session.createDataFrame(rows)
+                df = session.createDataFrame(rows, {"c": r["decl_type"]} if r.get("decl_type") else None)
             print("collect():", df.collect())
         except Exception as ex:  # noqa
             print("raised:", type(ex).__name__, str(ex)[:300])
